@@ -19,6 +19,7 @@ import (
 	"github.com/glebziz/fs_db/verifh/model"
 	"github.com/glebziz/fs_db/verifh/seq"
 	"github.com/glebziz/fs_db/verifh/small"
+	"github.com/glebziz/fs_db/verifrt/vrt"
 )
 
 func main() {
@@ -143,6 +144,9 @@ func main() {
 		// debugging aid: verifh explore <scenario> <params> <bound>
 		var b int
 		fmt.Sscan(os.Args[4], &b)
+		if vrt.RaceEnabled {
+			conc.ParentRaceSetup()
+		}
 		pool, err := conc.NewPool(0)
 		if err != nil {
 			os.Exit(3)
@@ -152,6 +156,9 @@ func main() {
 		hk.OutDir = os.TempDir()
 		sum := conc.RunItems(rp, pool, []conc.Item{{Name: os.Args[2], Params: os.Args[3], MaxBound: b}}, hk.NewBudget(30*time.Minute), true)
 		fmt.Printf("executions %d outcomes %v\n", sum.Execs, sum.Outcomes)
+		for _, r := range sum.Races {
+			fmt.Printf("race %s x%d: %v\n", r.Sig, r.Count, r.Frames)
+		}
 	case "replay":
 		r, err := hk.ReadReplay(os.Args[2])
 		if err != nil {
